@@ -6,6 +6,7 @@
 (* taken apart into stat / parse / one map assignment at a time / notify,  *)
 (* a getter goroutine interleaved with it, one write-back taken apart into *)
 (* its system calls with a crash possible between any two of them.         *)
+(* (RlRestat is enabled only in the design StampAt = "after".)             *)
 (***************************************************************************)
 EXTENDS FileConfig
 
@@ -30,7 +31,7 @@ MCInit == Init0(<<Cm, KvLine(a, v1)>>, NoOpt)
 MCNext ==
   \/ \E L \in Files : modn < MaxMod /\ Edit(L)
   \/ Tick(MaxSec) /\ UNCHANGED cvars
-  \/ RlStat \/ RlParse \/ RlApplyBegin \/ RlApplyEnd \/ RlNotify
+  \/ RlStat \/ RlParse \/ RlRestat \/ RlApplyBegin \/ RlApplyEnd \/ RlNotify
   \/ Get
   \/ \E kv \in KVs : modn + 3 <= MaxMod /\ Len(data) < 3 /\ SvBegin(kv)
   \/ SvStep \/ SvEnd \/ SvCrash
